@@ -58,8 +58,14 @@ class ParsedHeaders(Mapping[bytes, Sequence[BaseHeader]]):
             # TODO: Once typeshed merges this fix:
             #   https://github.com/python/typeshed/pull/4365
             # assign to hdr_name, hdr_value = ... instead.
-            hdr_tuple = SMTP.header_source_parse(lines)
-            yield cls._registry(hdr_tuple[0], hdr_tuple[1])
+            try:
+                hdr_tuple = SMTP.header_source_parse(lines)
+                parsed = cls._registry(hdr_tuple[0], hdr_tuple[1])
+            except Exception:
+                # the stdlib header parsers raise assorted exceptions on
+                # malformed values, treat those values as absent
+                continue
+            yield parsed
 
     def __repr__(self) -> str:
         return repr(dict(self))
